@@ -156,6 +156,8 @@ def make_algebra(cfg, **extra):
         kw['wrapper'] = identity_wrapper
     elif w == 'wraps':
         kw['wrapper'] = wraps_wrapper
+    if opts.get('simp_func') == 'none':
+        kw['simp_func'] = None          # documented way to switch the symbolic zero filter off
     if 'pretty_blade' in opts:
         kw['pretty_blade'] = opts['pretty_blade']
     if cfg.get('named'):
